@@ -23,8 +23,10 @@ Fixpoint sels (ns : list N) : list (list N) :=
     rest ++ flat_map (fun c => map (cons c) rest) (named n)
   end.
 
-Definition solvable_with (P : problem) (must : list N) : bool :=
-  existsb (fun S => validb U P S [] && forallb (fun f => memN f S) must) (sels names).
+Definition solvable_with_ex (P : problem) (must ex : list N) : bool :=
+  existsb (fun S => validb U P S ex && forallb (fun f => memN f S) must) (sels names).
+
+Definition solvable_with (P : problem) (must : list N) : bool := solvable_with_ex P must [].
 
 Definition solvableb (P : problem) : bool := solvable_with P [].
 
@@ -64,11 +66,11 @@ Proof.
   specialize (H s Hs). rewrite (dom_complete s Hd) in H. destruct H.
 Qed.
 
-Theorem solvable_with_spec P must :
-  solvable_with P must = true <->
-  exists S, valid U P S [] /\ forall f, In f must -> In f S.
+Theorem solvable_with_ex_spec P must ex :
+  solvable_with_ex P must ex = true <->
+  exists S, valid U P S ex /\ forall f, In f must -> In f S.
 Proof.
-  unfold solvable_with. rewrite existsb_exists. split.
+  unfold solvable_with_ex. rewrite existsb_exists. split.
   - intros [S [_ H]]. apply andb_true_iff in H. destruct H as [Hv Hm].
     exists S. split; [apply validb_spec; exact Hv|].
     intros f Hf. rewrite forallb_forall in Hm. apply memN_In. apply Hm. exact Hf.
@@ -82,6 +84,11 @@ Proof.
     + apply validb_spec. eapply valid_same_set; eauto.
     + apply forallb_forall. intros f Hf. apply memN_In. apply Hsame. apply Hm. exact Hf.
 Qed.
+
+Theorem solvable_with_spec P must :
+  solvable_with P must = true <->
+  exists S, valid U P S [] /\ forall f, In f must -> In f S.
+Proof. apply solvable_with_ex_spec. Qed.
 
 Theorem solvableb_correct P : solvableb P = true <-> solvable U P.
 Proof.
@@ -106,6 +113,7 @@ Proof.
 Qed.
 
 Definition u_solvable_with (u : universe) := solvable_with (table_provider u) (u_dom u).
+Definition u_solvable_with_ex (u : universe) := solvable_with_ex (table_provider u) (u_dom u).
 Definition u_solvableb (u : universe) := solvableb (table_provider u) (u_dom u).
 
 Theorem u_solvableb_correct u P :
@@ -116,3 +124,8 @@ Theorem u_solvable_with_spec u P must :
   u_solvable_with u P must = true <->
   exists S, valid (table_provider u) P S [] /\ forall f, In f must -> In f S.
 Proof. apply solvable_with_spec. apply u_dom_complete. Qed.
+
+Theorem u_solvable_with_ex_spec u P must ex :
+  u_solvable_with_ex u P must ex = true <->
+  exists S, valid (table_provider u) P S ex /\ forall f, In f must -> In f S.
+Proof. apply solvable_with_ex_spec. apply u_dom_complete. Qed.
